@@ -9,7 +9,7 @@ CONSTANTS
     PrefixIdx = {1, 2, 3, 4, 5, 6, 7, 8, 9, 10, 11}
     MaxSteps = 3
     Durs = {1, 2, 3, 4}
-    ParIdx = {1, 2, 3, 4, 5}
+    ParIdx = {1, 2, 3, 4, 5, 6, 7}
     MaxPts = 4
     EpsPts = TRUE
     ReadBefore = TRUE
